@@ -30,13 +30,20 @@ def Kind.toNat : Kind → Nat
   | .posOnly => 0 | .posOrKw => 1 | .varPos => 2 | .kwOnly => 3 | .varKw => 4
 
 /-- Annotation expressions, with the structure `astutils._AnnotationStringParser` looks at:
-names (the name `Literal` apart), the constant `None`, string constants (whose content parses as one
-expression `inner`, or does not: `badStr`), attributes (attribute name `0` stands for `Literal`),
+names (the names `Literal` and `Annotated` apart; `aliasRef` = a dotted name spelled otherwise that
+`ctx.expandName` resolves to `typing.Literal` / `typing.Annotated` — resolution itself is the `Names`
+layer's, C04), the constant `None`, string constants (whose content parses as one expression `inner`,
+or does not: `badStr`), attributes (attribute name `0` stands for `Literal`, `2` for `Annotated`),
 subscripts, and two kinds of nodes with two expression children that go through `generic_visit`
 (a 2-tuple and `a | b`). Every other string-free expression is an opaque `atom`. -/
+inductive TName | literal | annotated
+  deriving DecidableEq, Repr, Inhabited
+
 inductive AnnE
   | atom (a : Nat)
   | literalName
+  | annotatedName
+  | aliasRef (a : Nat) (t : TName)
   | noneLit
   | str (inner : AnnE)
   | badStr (a : Nat)
@@ -46,25 +53,38 @@ inductive AnnE
   | bor (a b : AnnE)
   deriving DecidableEq, Repr, Inhabited
 
-/-- `isinstance(value, ast.Name) and value.id == 'Literal'` or
-`isinstance(value, ast.Attribute) and value.attr == 'Literal'` (any prefix: `typing.`, `t.`, `te.` …). -/
-def AnnE.isLiteralRef : AnnE → Bool
+/-- `_is_typing_name(value, name)`: spelled `<name>` or `<anything>.<name>`, or a dotted name that
+`ctx.expandName` resolves to `typing.<name>` / `typing_extensions.<name>`. -/
+def AnnE.isTypingName : AnnE → TName → Bool
+  | .literalName, .literal => true
+  | .attr _ 0, .literal => true
+  | .annotatedName, .annotated => true
+  | .attr _ 2, .annotated => true
+  | .aliasRef _ t, t' => t == t'
+  | _, _ => false
+
+/-- before commit c06a302 only the spelling counted, and only for `Literal` -/
+def AnnE.isLiteralRefOld : AnnE → Bool
   | .literalName => true
   | .attr _ 0 => true
   | _ => false
 
-/-- `_AnnotationStringParser().visit(node)`. First component: the returned node, `none` = `SyntaxError`
+/-- `_AnnotationStringParser(ctx).visit(node)`. First component: the returned node, `none` = `SyntaxError`
 raised by `_parse_string`. Second component: the *original* node after the visit — `ast.NodeTransformer`
 works in place: `generic_visit` assigns a visited child back into its parent (`setattr(node, field, new)`
 for a single child such as `Attribute.value`, `BinOp.left`, `BinOp.right`; `old_value[:] = new_values` for
 a list such as `Tuple.elts`, only once every element has been visited), so when a later string raises,
 what was already replaced stays replaced.
 `visit_Constant` parses a string and visits the parsed tree (the Constant itself is never modified);
-`visit_Subscript` visits the value, then keeps the slice verbatim when the *visited* value is `Literal`
-/ `….Literal`, else visits the slice, and builds a NEW Subscript (the original one keeps its children). -/
+`visit_Subscript` visits the value; when the *visited* value designates `typing.Literal` the slice is kept
+verbatim; when it designates `typing.Annotated` and the slice is a tuple only the first element is
+visited (a new Tuple is built, the metadata stay as written); otherwise the slice is visited; a NEW
+Subscript is built (the original one keeps its children). -/
 def AnnE.visit : AnnE → Option AnnE × AnnE
   | .atom a => (some (.atom a), .atom a)
   | .literalName => (some .literalName, .literalName)
+  | .annotatedName => (some .annotatedName, .annotatedName)
+  | .aliasRef a t => (some (.aliasRef a t), .aliasRef a t)
   | .noneLit => (some .noneLit, .noneLit)
   | .str e => ((e.visit).1, .str e)
   | .badStr a => (none, .badStr a)
@@ -72,11 +92,23 @@ def AnnE.visit : AnnE → Option AnnE × AnnE
     match v.visit with
     | (some v', _) => (some (.attr v' n), .attr v' n)
     | (none, vm) => (none, .attr vm n)
+  | .sub v (.tup a b) =>
+    match v.visit with
+    | (none, vm) => (none, .sub vm (.tup a b))
+    | (some v', vm) =>
+      if v'.isTypingName .literal then (some (.sub v' (.tup a b)), .sub vm (.tup a b))
+      else if v'.isTypingName .annotated then
+        match a.visit with
+        | (some a', am) => (some (.sub v' (.tup a' b)), .sub vm (.tup am b))
+        | (none, am) => (none, .sub vm (.tup am b))
+      else match (AnnE.tup a b).visit with
+        | (some s', sm) => (some (.sub v' s'), .sub vm sm)
+        | (none, sm) => (none, .sub vm sm)
   | .sub v s =>
     match v.visit with
     | (none, vm) => (none, .sub vm s)
     | (some v', vm) =>
-      if v'.isLiteralRef then (some (.sub v' s), .sub vm s)
+      if v'.isTypingName .literal then (some (.sub v' s), .sub vm s)
       else match s.visit with
         | (some s', sm) => (some (.sub v' s'), .sub vm sm)
         | (none, sm) => (none, .sub vm sm)
@@ -94,6 +126,47 @@ def AnnE.visit : AnnE → Option AnnE × AnnE
       match b.visit with
       | (none, bm) => (none, .bor a' bm)
       | (some b', _) => (some (.bor a' b'), .bor a' b')
+
+/-- the visit as it was before commit c06a302 (historical; used by counterexamples only) -/
+def AnnE.visitOld : AnnE → Option AnnE × AnnE
+  | .atom a => (some (.atom a), .atom a)
+  | .literalName => (some .literalName, .literalName)
+  | .annotatedName => (some .annotatedName, .annotatedName)
+  | .aliasRef a t => (some (.aliasRef a t), .aliasRef a t)
+  | .noneLit => (some .noneLit, .noneLit)
+  | .str e => ((e.visitOld).1, .str e)
+  | .badStr a => (none, .badStr a)
+  | .attr v n =>
+    match v.visitOld with
+    | (some v', _) => (some (.attr v' n), .attr v' n)
+    | (none, vm) => (none, .attr vm n)
+  | .sub v s =>
+    match v.visitOld with
+    | (none, vm) => (none, .sub vm s)
+    | (some v', vm) =>
+      if v'.isLiteralRefOld then (some (.sub v' s), .sub vm s)
+      else match s.visitOld with
+        | (some s', sm) => (some (.sub v' s'), .sub vm sm)
+        | (none, sm) => (none, .sub vm sm)
+  | .tup a b =>
+    match a.visitOld with
+    | (none, am) => (none, .tup am b)
+    | (some a', am) =>
+      match b.visitOld with
+      | (none, bm) => (none, .tup am bm)
+      | (some b', _) => (some (.tup a' b'), .tup a' b')
+  | .bor a b =>
+    match a.visitOld with
+    | (none, am) => (none, .bor am b)
+    | (some a', _) =>
+      match b.visitOld with
+      | (none, bm) => (none, .bor a' bm)
+      | (some b', _) => (some (.bor a' b'), .bor a' b')
+
+def AnnE.unstringOld (e : AnnE) : AnnE :=
+  match e.visitOld with
+  | (some r, _) => r
+  | (none, orig) => orig
 
 /-- the visit's result; `none` = `SyntaxError` -/
 def AnnE.unstringE (e : AnnE) : Option AnnE := e.visit.1
